@@ -81,6 +81,25 @@ def closeObj : Nat → Heap → Nat → Heap
         else
           o.tracked.foldl (closeObj n) (if o.closefd then o.owns.foldl (closeObj n) H1 else H1)
 
+/-- the objects whose flag an I/O call on `i` may latch (static over-approximation: `i` and everything it reads through) -/
+def ioReach : Nat → Heap → Nat → List Nat
+  | 0, _, _ => []
+  | n + 1, H, i =>
+    match H[i]? with
+    | none => []
+    | some o => i :: o.through.flatMap (ioReach n H)
+
+/-- the objects a `close()` of `i` may touch (static over-approximation): itself, what its flush reads through, what it owns
+    (when `closefd`), what it tracks, recursively -/
+def reach : Nat → Heap → Nat → List Nat
+  | 0, _, _ => []
+  | n + 1, H, i =>
+    match H[i]? with
+    | none => []
+    | some o =>
+      i :: ((match o.flushOnClose with | some j => ioReach n H j | none => []) ++
+        (if o.closefd then o.owns.flatMap (reach n H) else []) ++ o.tracked.flatMap (reach n H))
+
 /-! ### the transcription: what each constructor / open method allocates -/
 
 structure World where
